@@ -28,7 +28,7 @@ for s in 1 2 3 10 12 14 15 30 31; do
   if [ -n "$PCV_IGNORE" ] && [ "$s" = 15 ]; then
     trap "echo \"$role GOT $s \$(date +%s%N)\" >> $log" $s
   else
-    trap "echo \"$role GOT $s \$(date +%s%N)\" >> $log; exit 0" $s
+    trap "echo \"$role GOT $s \$(date +%s%N)\" >> $log; kill \$sl 2>/dev/null; exit 0" $s
   fi
 done
 echo "$role START $$ $(date +%s%N)" >> "$log"
@@ -42,10 +42,18 @@ if [ "$depth" -gt 0 ]; then
     fi
   done
 fi
+# idle without fork churn (a tree that outlives its case must not load the
+# machine): poll only when there is a flag file to watch; "wait" returns as
+# soon as a trapped signal arrives
 while true; do
-  if [ -n "$PCV_FLAG" ] && [ -e "$PCV_FLAG" ]; then echo "$role FLAGEXIT $(date +%s%N)" >> "$log"; exit 0; fi
-  sleep 0.05 &
-  wait $!
+  if [ -n "$PCV_FLAG" ]; then
+    if [ -e "$PCV_FLAG" ]; then echo "$role FLAGEXIT $(date +%s%N)" >> "$log"; exit 0; fi
+    sleep 0.1 </dev/null >/dev/null 2>&1 &
+  else
+    sleep 600 </dev/null >/dev/null 2>&1 &
+  fi
+  sl=$!
+  wait $sl
 done
 `
 
@@ -600,7 +608,7 @@ func keysOf(m map[string]bool) []string {
 func init() {
 	fw.Register(&fw.Property{
 		ID: "C06", Level: "exploration",
-		Rule:        "real bash process trees (parent, children, grandchildren; members ignoring SIGTERM; children with detached stdio) whose traps log every received signal, run by the real supervisor: grid signal in {1,2,3,10,12,15,0,-1,32,77} x parent_only x timeout {unset,1,2} x shutdown command {none, succeeds, fails, hangs}; stop triggers: StopProcess / ShutDownProject in-process at random instants and SIGTERM / SIGINT / SIGHUP sent to the built process-compose binary; oracles: trap logs (which signal, who received it), /proc scan for a per-case environment marker (survivors), SIGKILL only after timeout_seconds (lower bound) and eventually, shutdown command environment and directory, binary exit status; distinct = parameter combination",
+		Rule:        "real bash process trees (parent, children, grandchildren; members ignoring SIGTERM; children with detached stdio) whose traps log every received signal, run by the real supervisor: grid signal in {1,2,3,10,12,14,15,30,31,0,-1,32,77} x parent_only x timeout {unset,1,2} x shutdown command {none, succeeds, fails, hangs, cannot be started}, optionally a second OS signal 50-650 ms after the first; stop triggers: StopProcess / ShutDownProject in-process at random instants and SIGTERM / SIGINT / SIGHUP sent to the built process-compose binary; oracles: trap logs (which signal, who received it), /proc scan for a per-case environment marker (survivors), SIGKILL only after timeout_seconds (lower bound) and eventually, shutdown command environment and directory, binary exit status; distinct = parameter combination",
 		Assumptions: []string{"descendants that leave the process group are out of scope", "signals 9 and 19 cannot be trapped and are not in the grid", "/proc polled up to 5 s for survivors (load tolerance only)"},
 		Gen: func(seed int64, tier string) []fw.Case {
 			var cs []fw.Case
@@ -612,8 +620,11 @@ func init() {
 		},
 		Run: runRealProc,
 		// children killed by a watchdog cannot sweep their process trees
-		Cleanup:        func() { killMarkedPrefix("m" + fmt.Sprint(os.Getpid()) + "_") },
-		Workers:        func(string) int { return 32 },
-		PerCaseTimeout: 180 * time.Second,
+		Cleanup: func() { killMarkedPrefix("m" + fmt.Sprint(os.Getpid()) + "_") },
+		// real processes may legitimately keep a shutdown (and the registry lock
+		// it holds) waiting: a watchdog dump is never a verdict here
+		WatchdogFinding: func(string) *fw.Finding { return nil },
+		Workers:         func(string) int { return 32 },
+		PerCaseTimeout:  180 * time.Second,
 	})
 }
